@@ -41,35 +41,35 @@ type Config struct {
 }
 
 type Interp struct {
-	prog     *ssa.Program
-	sol      *Solver
-	cfg      *Config
-	globals  map[*ssa.Global]*Value
-	prefix   []int64
-	pos      int
-	newWork  [][]int64
-	pc       []*Term
-	symNames []string          // smt names, in creation order
-	symIDs   map[string]string // smt name -> id
-	steps    int
-	funcs    map[*ssa.Function]int
-	depth    int
-	addrSeq  int
-	known    map[string]bool
-	addrs    map[*Value]*Term
-	tcache   *typeCache
-	frozen   map[*Value]string
-	frozenM  map[*MapV]string
-	observed []obs
-	asserts  int
-	assumes  []string
-	reached  map[string]bool
-	env      *envModel
-	sched    *scheduler
-	errNew   *ssa.Function
-	catchers int
-	ghost    map[string]Value
-	loopCnt  map[*ssa.BasicBlock]int
+	prog         *ssa.Program
+	sol          *Solver
+	cfg          *Config
+	globals      map[*ssa.Global]*Value
+	prefix       []int64
+	pos          int
+	newWork      [][]int64
+	pc           []*Term
+	symNames     []string          // smt names, in creation order
+	symIDs       map[string]string // smt name -> id
+	steps        int
+	funcs        map[*ssa.Function]int
+	depth        int
+	addrSeq      int
+	known        map[string]bool
+	addrs        map[*Value]*Term
+	tcache       *typeCache
+	frozen       map[*Value]string
+	frozenM      map[*MapV]string
+	observed     []obs
+	asserts      int
+	assumes      []string
+	reached      map[string]bool
+	env          *envModel
+	sched        *scheduler
+	errNew       *ssa.Function
+	catchers     int
+	ghost        map[string]Value
+	loopCnt      map[*ssa.BasicBlock]int
 	freezeExempt int
 	oidSeq       int
 }
